@@ -406,6 +406,7 @@ def into_data(val: Convertible, ty: t.Optional[IntoConverter] = None, *,
     """
     Convert `val` of type `ty` into a data interchange format.
     """
+    inferred = ty is None
     if ty is None:
         if isinstance(val, _ScalarType) and custom is None:
             # we can bypass the converter for scalar types
@@ -414,7 +415,9 @@ def into_data(val: Convertible, ty: t.Optional[IntoConverter] = None, *,
 
     try:
         conv = make_converter(ty, ConverterHandlers.make(custom))
-        assert not hasattr(conv.into_data, '_original')  # hack to not use the default into_data implementation here
+        # hack to not use the default into_data implementation here (it would call us again with the same type).
+        # With an explicit `ty` (e.g. a Literal, None or Any) the default implementation is fine.
+        assert not (inferred and hasattr(conv.into_data, '_original'))
     except (TypeError, AssertionError):
         raise TypeError(f"Can't convert type '{type(val)}' into data.") from None
 
